@@ -481,7 +481,8 @@ proof!(c39_open_in_place_any_bytes_24_26, open_in_place_full(24, 26));
 proof!(c39_open_in_place_any_bytes_40, open_in_place_full(40, 40));
 proof!(c39_open_in_place_any_bytes_27_31, open_in_place_full(27, 31));
 proof!(c39_open_in_place_any_bytes_32_35, open_in_place_full(32, 35));
-proof!(c39_open_in_place_any_bytes_36_39, open_in_place_full(36, 39));
+proof!(c39_open_in_place_any_bytes_36_37, open_in_place_full(36, 37));
+proof!(c39_open_in_place_any_bytes_38_39, open_in_place_full(38, 39));
 
 // ---------------------------------------------------------------------------------
 // seal / seal_in_place against the adversarial AEAD
